@@ -17,7 +17,47 @@ from concurrent.futures import ThreadPoolExecutor
 from fractions import Fraction
 
 from harness.core import gn, gnat, gbool, glist, gopt, gpair, CoqError
-from harness.ser import Names, ser_expr, ser_value, gqc
+from harness.ser import Names, ser_value, gqc
+from harness import ser as _ser
+
+
+def ser_expr(e, names):
+    """harness.ser.ser_expr extended to the operator kinds Core/Expr.v has no constructor for.  They are encoded as
+    UNINTERPRETED operators, which Walkers/Subst.v treats homomorphically exactly as IdentityDagWalker does:
+      Dot(agent, x)   ->  EIFun <id of "dot:agent"> [x]      (walk_dot: manager.Dot(expression.agent(), args[0]))
+      TimingExp / PresentExp (no children) -> EIFun <id> []   (walk_timing_exp / walk_present_exp)
+    The ids are fresh interpreted-function ids (>= 2) with no table entry, so such nodes evaluate to "undefined"."""
+    if not any(x.is_dot() or x.is_timing_exp() or x.is_present_exp() for x, _ in occurrences(e)):
+        return _ser.ser_expr(e, names)
+    def go(n):
+        if n.is_dot():
+            lab = "dot:" + n.agent()
+            return "(EIFun %s [%s])" % (gn(names._id("ifun", lab, lab)), go(n.arg(0)))
+        if n.is_timing_exp() or n.is_present_exp():
+            lab = ("timing:" if n.is_timing_exp() else "present:") + str(n)
+            return "(EIFun %s [])" % gn(names._id("ifun", lab, lab))
+        a = [go(x) for x in n.args]
+        if not n.args:
+            return _ser.ser_expr(n, names)
+        if n.is_fluent_exp():
+            return "(EFluent %s %s)" % (gn(names.fl(n.fluent())), glist(a))
+        if n.is_interpreted_function_exp():
+            return "(EIFun %s %s)" % (gn(names.ifun(n.interpreted_function())), glist(a))
+        if n.is_exists() or n.is_forall():
+            return "(%s %s %s)" % ("EExists" if n.is_exists() else "EForall", _ser.ser_vars(n.variables(), names), a[0])
+        nary = {"and": "EAnd", "or": "EOr", "plus": "EPlus", "times": "ETimes"}
+        for test, con in nary.items():
+            if getattr(n, "is_" + test)():
+                return "(%s %s)" % (con, glist(a))
+        fixed = {"not": "ENot", "implies": "EImplies", "iff": "EIff", "minus": "EMinus", "div": "EDiv", "le": "ELe", "lt": "ELt",
+                 "equals": "EEquals", "always": "EAlways", "sometime": "ESometime", "sometime_before": "ESometimeBefore",
+                 "sometime_after": "ESometimeAfter", "at_most_once": "EAtMostOnce"}
+        for test, con in fixed.items():
+            if getattr(n, "is_" + test)():
+                return "(%s %s)" % (con, " ".join(a))
+        raise ValueError("expression outside the modelled IR: %s" % n)
+
+    return go(e)
 
 META = {
     "level": "proof",
@@ -89,8 +129,31 @@ def rebuild(em, e, args):
         return em.FluentExp(e.fluent(), tuple(args))
     if e.is_interpreted_function_exp():
         return em.InterpretedFunctionExp(e.interpreted_function(), tuple(args))
+    if e.is_dot():
+        return em.Dot(e.agent(), args[0])
+    if e.is_always():
+        return em.Always(args[0])
+    if e.is_sometime():
+        return em.Sometime(args[0])
+    if e.is_at_most_once():
+        return em.AtMostOnce(args[0])
+    if e.is_sometime_before():
+        return em.SometimeBefore(*args)
+    if e.is_sometime_after():
+        return em.SometimeAfter(*args)
     assert not e.args, e
     return e
+
+
+def wrap_dots(em, e, rng, p):
+    """copy of e in which each OCCURRENCE of a fluent expression is, with probability p, put under Dot(agent, .)"""
+    if e.is_dot():
+        return e
+    args = [wrap_dots(em, a, rng, p) for a in e.args]
+    r = rebuild(em, e, args) if e.args else e
+    if r.is_fluent_exp() and rng.random() < p:
+        return em.Dot(rng.choice(["ag0", "ag1"]), r)
+    return r
 
 
 def topdown(em, e, subs):
@@ -198,6 +261,10 @@ class Gen:
         w, rng, em = self.w, self.rng, self.w.em
         t = k.type
         scope = scope_all if mode == "capture" else scope_free
+        if mode == "fluentexp":
+            # another fluent expression of a compatible type (the only thing Dot accepts as its child)
+            fs = [f for f in w.fluents if t.is_compatible(f.type)]
+            return w.gen_fluent(rng.choice(fs), 1, scope) if fs else None
         if mode == "capture" and kb:
             # a value that mentions a variable bound where the key occurs
             x = em.VariableExp(rng.choice(kb))
@@ -280,12 +347,49 @@ class Gen:
         return {"raw": False, "w": w, "e": em.Or(ab, a), "entries": [(ab, ab), (a, c)], "shapes": ["identity:identity", "nested:plain"],
                 "flavor": "identity", "free": [], "bound": [], "malformed": False, "bad_kinds": []}
 
+    def walker_corpus(self):
+        """one small expression per OperatorKind; the map replaces every leaf that occurs in a child position, so each
+        IdentityDagWalker.walk_* method has to rebuild its node from the REWRITTEN children"""
+        from fractions import Fraction as Fr
+        from unified_planning.model.timing import StartTiming, EndTiming
+        from unified_planning.model.presence import Presence
+        w = self.world()
+        em = w.em
+        fl = {f.name: f for f in w.fluents}
+        par = {p.name: p for p in w.params}
+        a0, a1 = [em.ObjectExp(o) for o in w.objs[w.T0]]
+        c0 = em.ObjectExp(w.objs[w.T1][0])
+        b0, i0, i2, o0 = em.FluentExp(fl["b0"]), em.FluentExp(fl["i0"]), em.FluentExp(fl["i2"]), em.FluentExp(fl["o0"])
+        pb, pi, p0 = em.ParameterExp(par["pb"]), em.ParameterExp(par["pi"]), em.ParameterExp(par["p0"])
+        b1 = lambda x: em.FluentExp(fl["b1"], (x,))
+        i1 = lambda x: em.FluentExp(fl["i1"], (x,))
+        v = w.fresh_var(w.T0)
+        vf = w.fresh_var(w.T0)
+        xv, xf = em.VariableExp(v), em.VariableExp(vf)
+        t0, t1 = em.TimingExp(StartTiming()), em.TimingExp(EndTiming())
+        pr = em.PresentExp(Presence("act"))
+        m = [(b0, b1(a0)), (pb, b1(a1)), (i0, i2), (pi, i1(a0)), (o0, c0), (p0, a1), (xf, a0), (t0, t1)]
+        exprs = [em.And(b0, pb), em.Or(pb, b0), em.Not(b0), em.Implies(b0, pb), em.Iff(pb, b0),
+                 em.Exists(em.And(b1(xv), b0, b1(p0)), v), em.Forall(em.Or(b1(xv), pb), v),
+                 b1(p0), em.FluentExp(fl["b2"], (c0, p0)), em.InterpretedFunctionExp(w.ifuns[0], [pi]),
+                 em.InterpretedFunctionExp(w.ifuns[1], [pi, i0]), pb, em.Equals(xf, p0), em.Equals(a0, o0),
+                 em.And(em.TRUE(), b0), em.LE(em.Int(3), i0), em.LT(em.Real(Fr(1, 2)), pi), em.Plus(i0, pi, 1), em.Minus(pi, i0),
+                 em.Times(i0, 2, pi), em.Div(i0, em.Plus(pi, 5)), em.LE(i0, pi), em.LT(pi, i0), em.Equals(i0, pi),
+                 em.Always(b0), em.Sometime(pb), em.SometimeBefore(b0, pb), em.SometimeAfter(pb, b0), em.AtMostOnce(b0),
+                 em.Dot("ag0", b1(p0)), em.And(em.Dot("ag1", b1(p0)), b1(p0)), em.Dot("ag0", em.FluentExp(fl["b2"], (c0, em.FluentExp(fl["o0"])))),
+                 t0, em.And(pr, b0)]
+        out = []
+        for e in exprs:
+            out.append({"raw": False, "w": w, "e": e, "entries": list(m), "shapes": ["corpus:leaf"] * len(m), "flavor": "walker-corpus",
+                        "free": [vf], "bound": [v], "malformed": False, "bad_kinds": [], "steps": None})
+        return out
+
     def case(self, malformed, w=None, flavor=None, history=False):
         w, rng = w or self.world(), self.rng
         self.w = w
         em = w.em
         flavor = flavor or rng.choice(["mixed", "nested", "binder", "binder", "leaf", "chain", "equiv", "not", "capture", "capture",
-                                       "quant", "absent", "identity"])
+                                       "quant", "absent", "identity", "dot", "dot"])
         need_q = flavor in ("binder", "capture", "quant") or rng.random() < 0.3
         e = None
         for _attempt in range(25):
@@ -306,6 +410,12 @@ class Gen:
             if flavor == "not" and not any(x.is_not() for x, _ in occurrences(e)) and rng.random() < 0.8:
                 e = None
                 continue
+            if flavor == "dot" or rng.random() < 0.1:
+                e0 = e
+                e = self.retry(lambda: wrap_dots(em, e0, rng, 0.5))
+                if e is None or (flavor == "dot" and not any(x.is_dot() and x.arg(0).args for x, _ in occurrences(e))):
+                    e = None
+                    continue
             break
         if e is None:
             return None
@@ -401,6 +511,22 @@ class Gen:
                 k = rng.choice(quants)[0] if quants else rng.choice(compound)[0]
             elif f == "absent":
                 k = self.retry(lambda: w.gen_bool(1, scope_free))
+            elif f == "dot":
+                # keys inside Dot nodes: arguments of the inner fluent expression, the inner fluent expression, the Dot node
+                dots = [x for x, _ in occ if x.is_dot()]
+                if dots:
+                    dn = rng.choice(dots)
+                    inside = [(y, b) for y, b in occurrences(dn)[2:] if not y.is_constant()]
+                    r = rng.random()
+                    if inside and r < 0.6:
+                        k, kb = rng.choice(inside)
+                        mode = rng.choice(["plain", "const", "equiv", "capture"])
+                    elif r < 0.85:
+                        k, mode = dn.arg(0), "fluentexp"
+                    else:
+                        k, mode = dn, rng.choice(["plain", "fluentexp"])
+                else:
+                    k, shape = rng.choice(nonconst)[0], "mixed"
             if k is None:
                 continue
             kk, kkb = k, kb
@@ -559,14 +685,16 @@ def run(ctx):
             good = {k: v for (k, v), s in zip(raw_entries, c["shapes"]) if not s.startswith("bad:")}
             good_f = {k: v for (k, v), s in zip(entries, c["shapes"]) if not s.startswith("bad:")}
             try:
-                after = e.substitute(good) if good else e
                 want = topdown(em, e, good_f) if good else e
-                if after != want:
-                    changed.append("a later call with the compatible part of the map returns %s instead of %s" % (after, want))
-            except ZeroDivisionError:
-                pass
-            except BaseException as ex:
-                changed.append("a later call with the compatible part of the map raises %r" % (ex,))
+            except BaseException:
+                want = None          # the specified result of the compatible part cannot be built (x / 0, Dot over a non-fluent)
+            if want is not None:
+                try:
+                    after = e.substitute(good) if good else e
+                    if after != want:
+                        changed.append("a later call with the compatible part of the map returns %s instead of %s" % (after, want))
+                except BaseException as ex:
+                    changed.append("a later call with the compatible part of the map raises %r" % (ex,))
             if changed:
                 direct_failures += 1
                 rec["changed"] = changed
@@ -648,6 +776,21 @@ def run(ctx):
             continue
         raw.append(r[0])
         cases.append(r[1])
+
+    # ---- walker corpus: one expression per OperatorKind, every child position holding a key (IdentityDagWalker.walk_*) ----
+    from unified_planning.model.operators import OperatorKind
+    corpus = gen.walker_corpus()
+    kinds = set()
+    for c in corpus:
+        kinds |= {x.node_type for x, _ in occurrences(c["e"])}
+        r = observe(c)
+        dist["walker_corpus"] += 1
+        if r is not None:
+            raw.append(r[0])
+            cases.append(r[1])
+    if set(OperatorKind) - kinds:
+        ctx.fail("harness", "walker corpus does not cover operator kinds %s" % sorted(k.name for k in set(OperatorKind) - kinds),
+                 ["c13", "corpus-incomplete"], {}, False)
 
     # ---- fixed corpus case: identity entry on a compound key + a key inside it ----
     r = observe(gen.fixed_identity_case())
